@@ -199,3 +199,13 @@ pub(crate) fn check(
         std::process::exit(1);
     }
 }
+
+/// Wrappers exposing private items to the verification hooks.
+#[cfg(wilfred_garden_verif)]
+pub(crate) mod verif_access {
+    use crate::diagnostics::Autofix;
+
+    pub(crate) fn apply_fixes(src: &str, fixes: &[Autofix]) -> String {
+        super::apply_fixes(src, fixes)
+    }
+}
